@@ -4,6 +4,7 @@ import ereduce
 import ecanon
 import eunits
 import eraw
+import esort
 
 LEVEL = "E-UNITS"
 CRATES = ("oxidd_core", "oxidd_manager_index", "oxidd_manager_pointer", "oxidd_reorder", "oxidd_rules_bdd",
@@ -36,5 +37,8 @@ def run(ctx):
                 "(free-slot accounting, tombstones, retain's wrap-around flag): a cut chain makes a stored node "
                 "unfindable, after which a second node with identical children is created on the same level.")
     eraw.run(ctx, F)
+    ctx.explain("E-PERM: the level-permutation step of set_var_order moves whole levels (with their stale numbers relabelled "
+                "afterwards); its loop invariant keeps populated levels from crossing without node restructuring.")
+    esort.run(ctx, F)
     ctx.not_decided = ("uniqueness/reducedness of the stored graph after arbitrary histories; minimal node counts; "
                        "the then-edge regularity of complement-edge nodes (planned tag-lattice rule)")
